@@ -277,3 +277,16 @@ func PoolHas(pool interface{}, pem []byte) bool { return false }
 
 // Native reports whether the harness runs natively (real environment).
 func Native() bool { return true }
+
+// MonitorBegin starts the lock-discipline monitor (engine only): every cell
+// reachable from the roots is shared; role names the goroutine role that
+// performs the following operation; selfConcurrent says whether that role
+// may run concurrently with itself.
+func MonitorBegin(role string, selfConcurrent bool, roots ...interface{}) {}
+
+// MonitorEnd ends the monitored region (checks that no shared mutex is held).
+func MonitorEnd() {}
+
+// MonitorIgnore declares objects that stand for the environment (e.g. a fake
+// net.Conn modelling a concurrency-safe socket): their cells are not shared state.
+func MonitorIgnore(roots ...interface{}) {}
